@@ -386,8 +386,51 @@ func (r *rw) preStmt(s ast.Stmt) (ast.Stmt, bool) {
 		if r.isChan(x.X) {
 			return r.rangeChan(x, nil), true
 		}
+		if r.isMap(x.X) {
+			r.rangeMap(x)
+			return nil, false // continue with the generic walk of the (modified) statement
+		}
 	}
 	return nil, false
+}
+
+func (r *rw) isMap(e ast.Expr) bool {
+	t := r.info.TypeOf(e)
+	if t == nil {
+		return false
+	}
+	_, ok := t.Underlying().(*types.Map)
+	return ok
+}
+
+// rangeMap makes map iteration order an engine decision: `for k, v := range m {B}` becomes
+// `for _, _e := range vrt.MapEntries(m) { k, v, _ok := _e.Get(); if !_ok {continue}; B }`
+// (entries deleted before they are reached are skipped, as in Go).
+func (r *rw) rangeMap(rs *ast.RangeStmt) {
+	r.counts["rangemap"]++
+	ent := r.tmp()
+	ok := r.tmp()
+	var k, v ast.Expr = ast.NewIdent("_"), ast.NewIdent("_")
+	if rs.Key != nil {
+		k = rs.Key
+	}
+	if rs.Value != nil {
+		v = rs.Value
+	}
+	var pre []ast.Stmt
+	tok := token.DEFINE
+	if rs.Tok == token.ASSIGN {
+		tok = token.ASSIGN
+		pre = append(pre, &ast.DeclStmt{Decl: &ast.GenDecl{Tok: token.VAR, Specs: []ast.Spec{&ast.ValueSpec{Names: []*ast.Ident{ok}, Type: ast.NewIdent("bool")}}}})
+	}
+	get := &ast.AssignStmt{Lhs: []ast.Expr{k, v, ok}, Tok: tok, Rhs: []ast.Expr{call(&ast.SelectorExpr{X: ent, Sel: ast.NewIdent("Get")})}}
+	skip := &ast.IfStmt{Cond: &ast.UnaryExpr{Op: token.NOT, X: ok}, Body: &ast.BlockStmt{List: []ast.Stmt{&ast.BranchStmt{Tok: token.CONTINUE}}}}
+	pre = append(pre, get, skip)
+	rs.Body.List = append(pre, rs.Body.List...)
+	rs.Key = ast.NewIdent("_")
+	rs.Value = ent
+	rs.Tok = token.DEFINE
+	rs.X = call(r.vrt("MapEntries"), rs.X)
 }
 
 func (r *rw) isConstOrNil(e ast.Expr) bool {
